@@ -155,4 +155,289 @@ theorem ingestReg_fresh (c : Cfg) (o : Oracles) (s : RSt) (r : Reg)
     simp only [hcov', Bool.not_false, if_true, Bool.false_and]
     exact ⟨trivial, hs1⟩
 
+/-! ### `parse` and `ingestWire` -/
+
+/-- the registration `parseRegMessage` hands to ingest for family `f`, if any -/
+def regOf (c : Cfg) (m : Msg) (o : Oracles) (f : Fam) : Option Reg :=
+  if attempted c m f then
+    match buildFam c m o f with
+    | .ok r => some r
+    | .error _ => none
+  else none
+
+theorem ingestWire_eq (c : Cfg) (s : RSt) (m : Msg) (o : Oracles) :
+    ingestWire c s (.msg m o) =
+      ingestRegs c o s ((regOf c m o .v4).toList ++ (regOf c m o .v6).toList) := by
+  cases h4 : attempted c m .v4 <;> cases h6 : attempted c m .v6 <;>
+    cases b4 : buildFam c m o .v4 <;> cases b6 : buildFam c m o .v6 <;>
+    simp [ingestWire, parse, tryFam, regOf, okRegs, ingestRegs, h4, h6, b4, b6]
+
+theorem newRegistration_some_iff (c : Cfg) (m : Msg) (o : Oracles) (f : Fam) (b : Build) :
+    newRegistration c m o f = some b ↔
+      ∃ ph rnd p, selOf o f = some (ph, rnd) ∧ c.transports.contains m.transport = true ∧ o.paramsOk = true ∧
+        basePort m o rnd = some p ∧ b = ⟨ph, p, o.proto⟩ := by
+  unfold newRegistration
+  cases hs : selOf o f with
+  | none => simp
+  | some pr =>
+    obtain ⟨ph, rnd⟩ := pr
+    dsimp only
+    cases htr : c.transports.contains m.transport
+    · simp
+    · cases hp : o.paramsOk
+      · simp
+      · cases hport : basePort m o rnd with
+        | none =>
+          simp only [Bool.not_true, Bool.false_eq_true, if_false, reduceCtorEq, false_iff]
+          rintro ⟨ph', rnd', p', hs', _, _, hp', _⟩
+          cases hs'; rw [hport] at hp'; cases hp'
+        | some p =>
+          simp only [Bool.not_true, Bool.false_eq_true, if_false, Option.some.injEq]
+          constructor
+          · intro h; exact ⟨ph, rnd, p, rfl, trivial, trivial, hport, h.symm⟩
+          · rintro ⟨ph', rnd', p', hs', _, _, hp', rfl⟩
+            cases hs'; rw [hport] at hp'; cases hp'; rfl
+
+theorem buildFam_ok_iff (c : Cfg) (m : Msg) (o : Oracles) (f : Fam) (r : Reg) :
+    buildFam c m o f = .ok r ↔
+      ∃ ph rnd p, selOf o f = some (ph, rnd) ∧ c.transports.contains m.transport = true ∧ o.paramsOk = true ∧
+        basePort m o rnd = some p ∧ overrideOkB m f = true ∧ validIP (registrantOf m) = true ∧
+        (isV4 ((overrideOf m f).getD ph) = true → isV4 (registrantOf m) = true) ∧ o.geoOk = true ∧
+        r = mkReg m o ((overrideOf m f).getD ph) (finalPort m p) := by
+  unfold buildFam
+  cases hn : newRegistration c m o f with
+  | none =>
+    simp only [reduceCtorEq, false_iff]
+    rintro ⟨ph, rnd, p, hs, htr, hp, hport, _⟩
+    have := (newRegistration_some_iff c m o f ⟨ph, p, o.proto⟩).mpr ⟨ph, rnd, p, hs, htr, hp, hport, rfl⟩
+    rw [hn] at this; cases this
+  | some b =>
+    obtain ⟨ph, rnd, p, hs, htr, hp, hport, rfl⟩ := (newRegistration_some_iff c m o f b).mp hn
+    simp only
+    constructor
+    · intro h
+      cases hov : overrideOkB m f
+      · simp [hov] at h
+      · cases hvr : validIP (registrantOf m)
+        · simp [hov, hvr] at h
+        · cases hfam : (isV4 ((overrideOf m f).getD ph) && !isV4 (registrantOf m))
+          · cases hg : o.geoOk
+            · simp [hov, hvr, hfam, hg] at h
+            · simp [hov, hvr, hfam, hg] at h
+              refine ⟨ph, rnd, p, hs, htr, hp, hport, rfl, rfl, ?_, rfl, h.symm⟩
+              intro h4; rw [h4] at hfam; simpa using hfam
+          · simp [hov, hvr, hfam] at h
+    · rintro ⟨ph', rnd', p', hs', _, _, hport', hov, hvr, hfam, hg, rfl⟩
+      rw [hs] at hs'; cases hs'
+      rw [hport] at hport'; cases hport'
+      have hfam' : (isV4 ((overrideOf m f).getD ph) && !isV4 (registrantOf m)) = false := by
+        cases h4 : isV4 ((overrideOf m f).getD ph)
+        · rfl
+        · simp [hfam h4]
+      simp [hov, hvr, hfam', hg]
+
+/-! ### what one `ingestReg` does, for any state -/
+
+theorem get_isSome_or_none (s : RSt) (k : Key) : (∃ e, get s k = some e) ∨ get s k = none := by
+  cases h : get s k with
+  | none => exact Or.inr rfl
+  | some e => exact Or.inl ⟨e, rfl⟩
+
+theorem validate_cases (c : Cfg) (r : Reg) : validate c r = .ok () ∨ validate c r ≠ .ok () := by
+  cases h : validate c r with
+  | error e => exact Or.inr (by simp)
+  | ok u => cases u; exact Or.inl rfl
+
+def validB (c : Cfg) (r : Reg) : Bool :=
+  match validate c r with
+  | .ok _ => true
+  | .error _ => false
+
+theorem validB_iff (c : Cfg) (r : Reg) : validB c r = true ↔ validate c r = .ok () := by
+  unfold validB
+  cases h : validate c r with
+  | error e => simp
+  | ok u => cases u; simp
+
+instance (c : Cfg) (r : Reg) : Decidable (validate c r = .ok ()) := decidable_of_iff _ (validB_iff c r)
+
+/-- a key other than the registration's is not touched -/
+theorem get_ingestReg_other (c : Cfg) (o : Oracles) (s : RSt) (r : Reg) (k : Key) (hk : keyOf r ≠ k) :
+    get (ingestReg c o s r).1 k = get s k := by
+  rcases validate_cases c r with hv | hv
+  · rcases get_isSome_or_none s (keyOf r) with ⟨e, he⟩ | hn
+    · rw [(ingestReg_dup c o s r e hv he).2 k, if_neg hk]
+    · rw [(ingestReg_fresh c o s r hv hn).2 k, if_neg hk]
+  · rw [ingestReg_invalid c o s r hv]
+
+/-- the registration's own entry afterwards -/
+theorem get_ingestReg_self (c : Cfg) (o : Oracles) (s : RSt) (r : Reg) :
+    get (ingestReg c o s r).1 (keyOf r) =
+      if validate c r = .ok () then
+        (match get s (keyOf r) with
+         | some e => some { e with regCount := e.regCount + 1 }
+         | none => some ⟨r.transport, passes c o r, 1⟩)
+      else get s (keyOf r) := by
+  rcases validate_cases c r with hv | hv
+  · rw [if_pos hv]
+    rcases get_isSome_or_none s (keyOf r) with ⟨e, he⟩ | hn
+    · rw [(ingestReg_dup c o s r e hv he).2 _, if_pos rfl, he]
+    · rw [(ingestReg_fresh c o s r hv hn).2 _, if_pos rfl, hn]
+  · rw [if_neg hv, ingestReg_invalid c o s r hv]
+
+/-- the events of one `ingestReg`: those of a validated, untracked registration, or none -/
+theorem evs_ingestReg (c : Cfg) (o : Oracles) (s : RSt) (r : Reg) :
+    (ingestReg c o s r).2 =
+      if validate c r = .ok () ∧ get s (keyOf r) = none then evsOf c o r else [] := by
+  rcases validate_cases c r with hv | hv
+  · rcases get_isSome_or_none s (keyOf r) with ⟨e, he⟩ | hn
+    · rw [(ingestReg_dup c o s r e hv he).1, if_neg]; rintro ⟨_, h⟩; rw [he] at h; cases h
+    · rw [(ingestReg_fresh c o s r hv hn).1, if_pos ⟨hv, hn⟩]
+  · rw [ingestReg_invalid c o s r hv, if_neg]; exact fun h => hv h.1
+
+theorem mem_probeEvs (r : Reg) (e : Ev) : e ∈ probeEvs r ↔ needProbe r = true ∧ e = .probe r.phantom r.port := by
+  unfold probeEvs
+  cases h : needProbe r <;> simp
+
+theorem mem_shareEvs (c : Cfg) (r : Reg) (e : Ev) :
+    e ∈ shareEvs c r ↔
+      r.source = srcDetector ∧ c.shareOverAPI = true ∧ ∃ sh, genShare r = some sh ∧ e = .share sh := by
+  unfold shareEvs
+  by_cases hs : r.source = srcDetector <;> cases hc : c.shareOverAPI <;> cases hg : genShare r <;> simp [hs]
+
+theorem announce_mem_evsOf (c : Cfg) (o : Oracles) (r r' : Reg) :
+    Ev.announce r ∈ evsOf c o r' ↔ r = r' ∧ passes c o r' = true := by
+  unfold evsOf passes
+  cases hcov : o.covertOk <;> cases hl : (needProbe r' && o.live) <;>
+    cases hb : (decide (r'.source = srcDetector) && blocklisted c r'.phantom) <;>
+    simp [mem_probeEvs, mem_shareEvs]
+
+theorem announce_mem_ingestReg (c : Cfg) (o : Oracles) (s : RSt) (r r' : Reg) :
+    Ev.announce r ∈ (ingestReg c o s r').2 ↔
+      r = r' ∧ validate c r' = .ok () ∧ get s (keyOf r') = none ∧ passes c o r' = true := by
+  rw [evs_ingestReg]
+  by_cases h : validate c r' = .ok () ∧ get s (keyOf r') = none
+  · rw [if_pos h, announce_mem_evsOf]; constructor
+    · rintro ⟨h1, h2⟩; exact ⟨h1, h.1, h.2, h2⟩
+    · rintro ⟨h1, _, _, h2⟩; exact ⟨h1, h2⟩
+  · rw [if_neg h]; constructor
+    · intro hm; cases hm
+    · rintro ⟨_, h1, h2, _⟩; exact absurd ⟨h1, h2⟩ h
+
+theorem validAt_ingestReg (c : Cfg) (o : Oracles) (s : RSt) (r : Reg) (k : Key) :
+    validAt (ingestReg c o s r).1 k ↔
+      validAt s k ∨ (k = keyOf r ∧ validate c r = .ok () ∧ get s k = none ∧ passes c o r = true) := by
+  unfold validAt
+  by_cases hk : keyOf r = k
+  · subst hk
+    rw [get_ingestReg_self]
+    rcases validate_cases c r with hv | hv
+    · rw [if_pos hv]
+      rcases get_isSome_or_none s (keyOf r) with ⟨e, he⟩ | hn
+      · rw [he]; constructor
+        · rintro ⟨e', he', hv'⟩; cases he'; exact Or.inl ⟨e, rfl, hv'⟩
+        · rintro (⟨e', he', hv'⟩ | ⟨_, _, h, _⟩)
+          · cases he'; exact ⟨_, rfl, hv'⟩
+          · cases h
+      · rw [hn]; constructor
+        · rintro ⟨e', he', hv'⟩; cases he'; exact Or.inr ⟨rfl, hv, rfl, hv'⟩
+        · rintro (⟨e', he', _⟩ | ⟨_, _, _, hp⟩)
+          · cases he'
+          · exact ⟨_, rfl, hp⟩
+    · rw [if_neg hv]; constructor
+      · intro h; exact Or.inl h
+      · rintro (h | ⟨_, h, _⟩)
+        · exact h
+        · exact absurd h hv
+  · rw [get_ingestReg_other c o s r k hk]; constructor
+    · intro h; exact Or.inl h
+    · rintro (h | ⟨h, _⟩)
+      · exact h
+      · exact absurd h.symm hk
+
+/-! ### address families of the two registrations of one message -/
+
+/-- contract of the phantom selector (C14): it hands out an address of the requested family -/
+structure SelectorFam (o : Oracles) : Prop where
+  v4 : ∀ ph rnd, o.sel4 = some (ph, rnd) → isV4 ph = true
+  v6 : ∀ ph rnd, o.sel6 = some (ph, rnd) → ph.length = 16 ∧ isV4 ph = false
+
+theorem isV4_len {ip : Bytes} (h : isV4 ip = true) : ip.length = 4 ∨ ip.length = 16 := by
+  unfold isV4 to4 at h
+  by_cases h4 : ip.length = 4
+  · exact Or.inl h4
+  · by_cases h16 : ip.length = 16 ∧ ip.take 12 = CJ.Detector.v4InV6Prefix
+    · exact Or.inr h16.1
+    · simp [h4, h16] at h
+
+theorem len4_isV4 {ip : Bytes} (h : ip.length = 4) : isV4 ip = true := by
+  unfold isV4 to4; simp [h]
+
+theorem validIP_iff (ip : Bytes) : validIP ip = true ↔ ip.length = 4 ∨ ip.length = 16 := by
+  unfold validIP; simp
+
+theorem buildFam_phantom {c : Cfg} {m : Msg} {o : Oracles} {f : Fam} {r : Reg}
+    (hsel : SelectorFam o) (h : buildFam c m o f = .ok r) :
+    (f = .v4 → isV4 r.phantom = true) ∧ (f = .v6 → r.phantom.length = 16 ∧ isV4 r.phantom = false) := by
+  obtain ⟨ph, rnd, p, hs, _, _, _, hov, _, _, _, rfl⟩ := (buildFam_ok_iff c m o f r).mp h
+  unfold overrideOkB at hov
+  unfold mkReg
+  simp only
+  cases ho : overrideOf m f with
+  | none =>
+    simp only [Option.getD_none]
+    constructor
+    · intro hf; subst hf; exact hsel.v4 ph rnd hs
+    · intro hf; subst hf; exact hsel.v6 ph rnd hs
+  | some ip =>
+    rw [ho] at hov
+    simp only [Option.getD_some]
+    unfold overrideValid at hov
+    simp only [Bool.and_eq_true, beq_iff_eq] at hov
+    obtain ⟨hv, hfam⟩ := hov
+    constructor
+    · intro hf; subst hf; rw [hfam]; decide
+    · intro hf; subst hf
+      have h4 : isV4 ip = false := by rw [hfam]; decide
+      refine ⟨?_, h4⟩
+      rcases (validIP_iff ip).mp hv with hl | hl
+      · rw [len4_isV4 hl] at h4; cases h4
+      · exact hl
+
+theorem phKey_ne {a b : Bytes} (ha : isV4 a = true) (hb : b.length = 16) (hb4 : isV4 b = false) :
+    phKey a ≠ phKey b := by
+  unfold phKey
+  unfold isV4 at ha hb4
+  cases h1 : to4 a with
+  | none => rw [h1] at ha; cases ha
+  | some x =>
+    cases h2 : to4 b with
+    | some y => rw [h2] at hb4; cases hb4
+    | none =>
+      simp only [hb, if_true]
+      intro h
+      have := congrArg String.toList h
+      simp [String.toList_append] at this
+
+theorem regOf_some {c : Cfg} {m : Msg} {o : Oracles} {f : Fam} {r : Reg} (h : regOf c m o f = some r) :
+    attempted c m f = true ∧ buildFam c m o f = .ok r := by
+  unfold regOf at h
+  cases ha : attempted c m f
+  · simp [ha] at h
+  · cases hb : buildFam c m o f with
+    | error e => simp [ha, hb] at h
+    | ok r' => simp [ha, hb] at h; subst h; exact ⟨rfl, rfl⟩
+
+/-- the IPv4 and the IPv6 registration of one message never share a registry key -/
+theorem keys_ne {c : Cfg} {m : Msg} {o : Oracles} {r4 r6 : Reg} (hsel : SelectorFam o)
+    (h4 : regOf c m o .v4 = some r4) (h6 : regOf c m o .v6 = some r6) : keyOf r4 ≠ keyOf r6 := by
+  have p4 := (buildFam_phantom hsel (regOf_some h4).2).1 rfl
+  have p6 := (buildFam_phantom hsel (regOf_some h6).2).2 rfl
+  unfold keyOf
+  intro h
+  exact phKey_ne p4 p6.1 p6.2 (congrArg Prod.fst h)
+
+theorem announce_ne {r4 r6 : Reg} (h : keyOf r4 ≠ keyOf r6) : r4 ≠ r6 := by
+  intro he; subst he; exact h rfl
+
 end CJ.Ingest
